@@ -18,6 +18,7 @@ EXPLANATION = (
     "Collision resistance and cross-platform usize width are NOT decided.")
 
 NOT_DECIDED = [
+    "0.0 and -0.0 compare equal and are hashed by their bits (only NaN is canonicalised); an exhausted RangeInclusive hashes like a fresh one (private std field)",
     "128-bit collision freedom; quality of SipHash; that unequal values never produce equal streams (only framing is checked)",
     "usize width / OsStr encoding across platforms; 0.0 vs -0.0 (equal under ==, hashed differently: conservative for change detection)",
 ]
